@@ -89,3 +89,52 @@ def calls_in(node):
         if n.get("k") in ("Call", "MCall") and n.get("f"):
             out.append(n["f"])
     return out
+
+
+def pat_sig(p, drop=()):
+    """canonical text of the *constraints* of a pattern (bindings and wildcards dropped);
+    returns a list of alternatives (or-patterns are flattened at the top level)"""
+    p = _strip(p)
+    k = p["k"]
+    if k == "Or":
+        out = []
+        for q in p["ps"]:
+            out.extend(pat_sig(q, drop))
+        return out
+    return [_sig1(p, drop)]
+
+
+def _sig1(p, drop):
+    p = _strip(p)
+    k = p["k"]
+    if k in ("Wild", "Bind", "Missing"):
+        if k == "Bind" and "sub" in p:
+            return _sig1(p["sub"], drop)
+        return None
+    if k == "Lit":
+        return ("-" if p.get("neg") else "") + p["v"]
+    if k == "Path":
+        return p["p"]
+    if k == "Struct":
+        cons = []
+        for name, q in p["fs"]:
+            if name in drop:
+                continue
+            s = _sig1(q, drop)
+            if s is not None:
+                cons.append("%s: %s" % (name, s))
+        return p["p"] + ("{" + ", ".join(sorted(cons)) + "}" if cons else "")
+    if k == "TS":
+        cons = []
+        for i, q in enumerate(p["ps"]):
+            s = _sig1(q, drop)
+            if s is not None:
+                cons.append("%d: %s" % (i, s))
+        return p["p"] + ("(" + ", ".join(cons) + ")" if cons else "")
+    if k == "Tuple":
+        return "(" + ", ".join(str(_sig1(q, drop)) for q in p["ps"]) + ")"
+    if k == "Or":
+        return "|".join(sorted(str(_sig1(q, drop)) for q in p["ps"]))
+    if k == "Range":
+        return "range"
+    return "?" + k
